@@ -38,6 +38,9 @@ def ipv6(rng, kind=None):
     k = kind or rng.choice(['zero', 'ones', 'rand', 'rand', 'mapped', 'll', 'doc'])
     if k == 'zero':
         return '::'
+    if k == 'small':
+        # numerically below 2^32: a decoder that guesses the family from the size of the integer prints these as IPv4
+        return rng.choice(['::', '::1', '::2', '::ffff'])      # (netaddr prints larger ones in IPv4-compatible dotted form)
     if k == 'ones':
         return 'ffff:ffff:ffff:ffff:ffff:ffff:ffff:ffff'
     if k == 'mapped':
@@ -218,12 +221,25 @@ def evpn_route(rng, rtype=None):
         if r < 0.4:
             v['ip'] = ipv4(rng, rng.choice(['rand', 'ones', 'low']))
         elif r < 0.7:
-            v['ip'] = ipv6(rng, rng.choice(['rand', 'doc', 'll']))
+            v['ip'] = ipv6(rng, rng.choice(['rand', 'doc', 'll', 'small']))
     elif t == 3:
-        v = {'rd': rd(rng), 'eth_tag_id': rng.choice(U32), 'ip': ipv4(rng, 'rand') if rng.random() < 0.6 else ipv6(rng, 'doc')}
+        v = {'rd': rd(rng), 'eth_tag_id': rng.choice(U32), 'ip': ipv4(rng, 'rand') if rng.random() < 0.6 else ipv6(rng, rng.choice(['doc', 'doc', 'small']))}
     else:
-        v = {'rd': rd(rng), 'esi': esi(rng), 'ip': ipv4(rng, 'rand') if rng.random() < 0.6 else ipv6(rng, 'doc')}
+        v = {'rd': rd(rng), 'esi': esi(rng), 'ip': ipv4(rng, 'rand') if rng.random() < 0.6 else ipv6(rng, rng.choice(['doc', 'doc', 'small']))}
     return {'type': t, 'value': v}
+
+
+def evpn_route5(rng):
+    """EVPN IP prefix route (type 5), decode side only: yabgp's encoder takes another shape of 'esi' for this type"""
+    six = rng.random() < 0.5
+    if six:
+        n = rng.choice([0, 1, 3, 7, 32, 33, 64, 127, 128])
+        pfx = prefix6(rng, n, rng.choice(['rand', 'ones', 'zero']))
+        gw = ipv6(rng, rng.choice(['doc', 'rand', 'll', 'small']))
+    else:
+        pfx = prefix4(rng, rng.choice([0, 1, 8, 24, 25, 32]), 'rand')
+        gw = ipv4(rng, 'rand')
+    return {'type': 5, 'value': {'rd': rd(rng), 'esi': esi(rng), 'eth_tag_id': rng.choice(U32), 'prefix': pfx, 'gateway': gw, 'label': [rng.choice(LABELS)]}}
 
 
 FS_NUMERIC = [3, 4, 5, 6, 7, 8, 10, 11]       # components with numeric operators (9 = tcp flags, 12 = fragment: bitmask)
@@ -270,7 +286,7 @@ def mp_value(rng, family, withdraw=False, nmax=20):
                 ps.append(p)
         v = {'afi_safi': [2, 1], key: ps}
         if not withdraw:
-            v['nexthop'] = ipv6(rng, rng.choice(['doc', 'rand', 'mapped']))
+            v['nexthop'] = ipv6(rng, rng.choice(['doc', 'rand', 'mapped', 'small']))
             if rng.random() < 0.4:
                 v['linklocal_nexthop'] = ipv6(rng, 'll')
     elif family in ('ipv4_lu', 'ipv6_lu'):
@@ -281,7 +297,7 @@ def mp_value(rng, family, withdraw=False, nmax=20):
                            'label': label_stack(rng)})
         v = {'afi_safi': [2 if six else 1, 4], key: routes}
         if not withdraw:
-            v['nexthop'] = ipv6(rng, 'doc') if six else ipv4(rng, 'rand')
+            v['nexthop'] = ipv6(rng, rng.choice(['doc', 'doc', 'small'])) if six else ipv4(rng, 'rand')
     elif family in ('vpnv4', 'vpnv6'):
         six = family == 'vpnv6'
         routes = []
@@ -290,7 +306,7 @@ def mp_value(rng, family, withdraw=False, nmax=20):
                            'label': [524288] if withdraw else label_stack(rng, 1)[:1]})
         v = {'afi_safi': [2 if six else 1, 128], key: routes}
         if not withdraw:
-            v['nexthop'] = {'rd': '0:0', 'str': ipv6(rng, 'mapped') if six else ipv4(rng, 'rand')}
+            v['nexthop'] = {'rd': '0:0', 'str': ipv6(rng, rng.choice(['mapped', 'mapped', 'doc', 'small'])) if six else ipv4(rng, 'rand')}
     elif family == 'evpn':
         v = {'afi_safi': [25, 70], key: [evpn_route(rng) for _ in range(min(n, 6))]}
         if not withdraw:
